@@ -105,3 +105,10 @@ GROUPS += [
           flags=["--no-malloc-may-fail"], functions=["buildMatrix"], props=["C11", "C17"],
           assumed=["rawlp/matrix_dup: static buildMatrix called through goto-cc --export-file-local-symbols; ILLdata_warn is a counter; ILLraw_colname is a stub that checks its index; the general buildMatrix group (symbolic shapes) exhausts the solver and is not built"]),
 ]
+
+GROUPS += [
+    Group("lp/constraint_expr", "lp_expr.c", tus=["lp_mpq.c"], model=MODEL, defines=["QSV_GMP_EXACT", "QSV_NARROW", "QSV_GMP_TOKENS", "QSV_INF=1024"], dfcc=False, export_static=True, unwind=6, kind="bounded", namebuf=512, timeout=1200,
+          bound="every token sequence of at most 3 terms (sign / coefficient / variable each present or not, variable known or new), values in -3..3; exact pair arithmetic with TOKENS; loops completely unwound; reader buffer capacity 512",
+          flags=["--no-malloc-may-fail"], must_fail=["reach_end", "reach_three_terms", "reach_rejected"], functions=["ILLread_constraint_expr", "add_var"],
+          props=["C10", "C11", "C18", "C17"], assumed=["lp/constraint_expr: the scanner functions (ILLread_lp_state_sign / possible_coef / next_var, decided in rdr/lp_scan_*), the symbol table lookup and the raw-problem adders are ghost-recording stubs"]),
+]
